@@ -156,7 +156,7 @@ pub fn run(ctx: &mut Ctx) -> (&'static str, String, bool) {
     ctx.extra("tiny_matrix", json!("256 sub-type bytes (30 defined + 226 undefined) x 256 request ids x 2 modes x 2 implementations"));
 
     // ---- histories: keep-alives interleaved with every other kind at every position ---------------
-    let n = if miri { 1 } else { ctx.tier.pick(300u64, 8000u64) };
+    let n = if miri { 1 } else { ctx.tier.pick(2_000u64, 60_000u64) };
     let parts: Vec<Part> = (0..n)
         .into_par_iter()
         .map(|i| {
